@@ -125,7 +125,7 @@ func TestCheck(t *testing.T) {
 		n    int
 	}
 	const chunk = 500
-	for _, s := range []src{{"adv", gen.Adv, r.N(2400000, 24000000)}, {"dense", gen.Dense, r.N(600000, 6000000)}, {"sparse", gen.Sparse, r.N(600000, 6000000)}} {
+	for _, s := range []src{{"adv", gen.Adv, r.N(2400000, 96000000)}, {"dense", gen.Dense, r.N(600000, 24000000)}, {"sparse", gen.Sparse, r.N(600000, 24000000)}} {
 		ev.Parallel(s.n/chunk, func(wk, i int) {
 			lc := lcs[wk]
 			rng := r.RNG("c09-"+s.name, i)
@@ -148,7 +148,7 @@ func TestCheck(t *testing.T) {
 	// quiescence-shaped descents: the only caller is the quiescence search, so follow noisy-move
 	// sequences (optionally after a null move) from search roots and from reported PV ends.
 	corpus := gen.Corpus()
-	nd := r.N(30000, 300000)
+	nd := r.N(30000, 1200000)
 	ev.Parallel(nd, func(wk, i int) {
 		lc := lcs[wk]
 		rng := r.RNG("c09-q", i)
